@@ -81,6 +81,17 @@ theorem fromLinearT1_inverts (T10 T100 t1 : ℝ) (h10 : T10 ≠ 0) (h100 : T100 
   rw [h1]
   field_simp
 
+/-- second-order interpolation: the back-transformation undoes the forward one exactly, whatever the
+    macromolecule concentration is (it need not equal the spin concentration) -/
+theorem secondOrder_inverts (t1 t1w dT1w p kHH macroC spinC : ℝ) (ht : t1 ≠ 0) (hs : spinC ≠ 0) :
+    fromSecondOrderKrp (secondOrderKrp t1 t1w dT1w p kHH macroC spinC) t1w dT1w p kHH macroC spinC = t1 := by
+  unfold fromSecondOrderKrp secondOrderKrp
+  have h : spinC * ((1 / t1 - 1 / (t1w + dT1w * p) - kHH * macroC) / spinC) + 1 / (t1w + dT1w * p) + kHH * macroC = 1 / t1 := by
+    field_simp
+    ring
+  rw [h]
+  field_simp
+
 /-- legacy units: a quantity given in the legacy unit (value above the threshold) is rescaled to the SI
     value, an SI value below the threshold is left alone — so both conventions give the same input to the
     analysis WHENEVER the threshold separates them -/
